@@ -146,6 +146,19 @@ CHECKS = {
               "t_eff inverts the corner displacement and raises above it."),
         design_ref="DESIGN.md section 4, C20",
         note=LEVEL_NOTE_N + "; one open known finding (integer-input truncation pinned by an existing test)"),
+    "C19": dict(
+        engine="Surface",
+        technique="TLA+ definition of the shifted-wave surface energy and of the integer shifting helpers; TLC proves the listed consequences of the definition on an exact lattice; the implementation is bound by TLC trace validation (one event per travel time) over the replayed lattice, a decimal travel-time sweep, random calls and an exhaustive shift-vector grid",
+        category="model_checking",
+        text=("MC_Surface: every record over {-1,0,2} to length 5 (quick) / 7 (thorough), delays 0, 1/2, 1, 2, 3 samples: CumAbsMonotone, "
+              "ZeroTravelNodalZero, ScaleSquared, RowEqualsSingle, Lengths hold of the definition. Trace_Surface: calc_surface_energy and "
+              "calc_cum_abs_surface_energy for every record over {-1,0,2} to length 4 / 5 x 4 option sets (scalar / array travel times and "
+              "reductions, stt) x nodal x trim x start, a sweep of decimal travel times whose delay lands next to an integer, random "
+              "records: values against the definition (start=False), integer-shift relation and npts length (start=True), cumulative "
+              "series, scaling and batch-row relation events; put_array_in_2d_array on every shift vector in {-2..2}^(1..3) x 4 clip "
+              "modes and join_values_w_shifts / join_sig_w_time_shift against the definition."),
+        design_ref="DESIGN.md section 4, C19",
+        note=LEVEL_NOTE_N + "; start=True constrained as a relation (the statement fixes only the length)"),
 }
 
 NOT_YET = {}
